@@ -48,7 +48,8 @@ SILENCE_TAIL = [('idle',), ('tick', 11), ('idle',), ('idle',), ('idle',)]
 def main(tier, seed):
     dec = common.Decision('C13', tier, seed)
     common.static_gate(dec, ['Properties/C13.v'], ['Proofs/FsmProofs.v', 'Proofs/FsmProofs2.v', 'Proofs/FsmSpecProofs.v',
-                                                   'Proofs/ProviderProofs.v', 'Proofs/ProviderTheorems.v'])
+                                                   'Proofs/ProviderProofs.v', 'Proofs/ProviderTheorems.v',
+                                                   'Proofs/FsmWProofs.v', 'Proofs/ProviderWProofs.v'])
     rng = random.Random(seed)
     rest_cases = []      # must end at rest
     stop_cases = []      # a stop request: must return
@@ -103,6 +104,14 @@ def main(tier, seed):
                     if rng.random() < 0.2:
                         silent_cases.append(dict(label=[name, 'silence_in_pdu', k, c], acceptor=acceptor,
                                                  ops=base + [('seg', raw[:c]), ('idle',)] + SILENCE_TAIL))
+    # a peer faster than the application: 150 messages arrive and nobody reads the indications meanwhile; a stop request
+    # and the peer's close must still be honoured (the provider must never wait for the application to read)
+    import check_C12
+    est = [p for p in check_C12.prefixes() if p[0] == 'sta6_established'][0][2]
+    echo = b''.join(p.encode() for p in pd.fragments(pd.mk_message('echo_rq', 1), 1, 16384))
+    flood = [('seg', echo * 150)] + [('idle',)] * 155
+    stop_cases.append(dict(label=['flood-of-150-unread-messages', 'kill'], acceptor=True, ops=list(est) + flood + [('kill',)]))
+    rest_cases.append(dict(label=['flood-of-150-unread-messages', 'close'], acceptor=True, ops=list(est) + flood + CLOSE_TAIL))
     runner, res1, f1, broken, _r = pd.run_cases('C13', dec, rest_cases,
                                                [('corr', 'prov_corr'), ('spec', 'c05_spec'), ('rest', 'ends_at_rest')], size=50)
     _rn, res2, f2, b2, _r = pd.run_cases('C13', dec, stop_cases, [('corr', 'prov_corr'), ('spec', 'c05_spec')], size=50,
@@ -111,15 +120,27 @@ def main(tier, seed):
                                         [('corr', 'prov_corr'), ('spec', 'c05_spec'), ('silent', 'silence_ok')], size=50,
                                         runner=runner, prefix='Silent')
     broken += b2 + b3
+    # an ending by RESET: the peer's reset arrives right behind its last bytes and the provider's next write is refused
+    # by the kernel (Model.ProviderW; repair D23).  Model = implementation, and the provider ends at rest, user told
+    import check_C12
+    reset_cases = pd.reset_scenarios(check_C12.prefixes(), rng, 6 if tier == 'quick' else 60)
+    _rn, res4, f4, b4 = pd.run_cases_w('C13', dec, reset_cases,
+                                       [('corr', 'prov_corr_w'), ('spec', 'c05_spec_w'), ('rest', 'ends_at_rest_w')],
+                                       size=50, runner=runner, prefix='Reset')
+    broken += b4
     cov = dec.coverage
-    cov['evaluations'] = len(rest_cases) + len(stop_cases) + len(silent_cases)
-    allc = rest_cases + stop_cases + silent_cases
+    cov['evaluations'] = len(rest_cases) + len(stop_cases) + len(silent_cases) + len(reset_cases)
+    allc = rest_cases + stop_cases + silent_cases + reset_cases
     cov['distinct_nontrivial'] = len(set(tuple(pd.short_ops(c['ops'])) for c in allc))
     cov['rule'] = ('%d conversations (both roles) x {peer closes after every step, after every byte prefix of its next PDU '
                    '(sampled for long PDUs in quick), before/after the remaining local steps; peer silent + ARTIM expiry after '
-                   'every step; stop request after every step}; distinct = distinct op sequences' % len(corpus))
+                   'every step; stop request after every step}; 8 protocol states x the peer resets the connection behind its last bytes '
+                   '(unrecognised / unusable / unexpected / partial PDUs, receive sizes 65536 / 16 / 7, local requests before and '
+                   'after) with a transport that refuses writes; distinct = distinct op sequences' % len(corpus))
     import collections
     cov['distribution'] = dict(close=len(rest_cases), stop=len(stop_cases), silence=len(silent_cases),
+                               reset=len(reset_cases),
+                               reset_with_a_refused_write=sum(1 for r in res4 if r.get('refused_writes')),
                                outcomes=dict(collections.Counter(r['outcome'] for r in res1 + res2 + res3)),
                                final_states=dict(collections.Counter(str(r['final']['st']) for r in res1 + res3)))
     cov['samples'] = [dict(label=c['label'], ops=pd.short_ops(c['ops'])[-8:], result=pd.summary(r))
@@ -129,6 +150,14 @@ def main(tier, seed):
         return pd.replayable(dict(kind=kind, label=c['label'], acceptor=c['acceptor'], ops=pd.short_ops(c['ops']),
                                   result=pd.summary(r)), c, oracle=current_oracle[0])
     current_oracle = [None]
+    for i in sorted(set(f4['spec']) | set(f4['rest'])):
+        current_oracle[0] = 'rest'
+        dec.report(rec(reset_cases[i], res4[i], 'not-terminated-or-not-released'))
+    for i in f4['corr']:
+        if i not in set(f4['spec']) | set(f4['rest']):
+            current_oracle[0] = 'rest'
+            dec.report(dict(rec(reset_cases[i], res4[i], 'model-differs'),
+                            theorem='correspondence prov_corr_w (Corr/CorrProviderW.v)'), no_input=True)
     for cases, results, failing, oracle in ((rest_cases, res1, f1, 'rest'), (stop_cases, res2, f2, None),
                                             (silent_cases, res3, f3, 'silent')):
         bad = set(failing['spec']) | (set(failing[oracle]) if oracle else set())
